@@ -81,6 +81,94 @@ const PPC64_REGS: &[&str] = &[
     "r27", "r28", "r29", "r30", "r31", "cr", "xer", "lr", "ctr", "vrsave",
 ];
 
+/// hardware numbering of the amd64 general purpose registers
+const AMD64_HW: [&str; 16] = [
+    "rax", "rcx", "rdx", "rbx", "rsp", "rbp", "rsi", "rdi", "r8", "r9", "r10", "r11", "r12", "r13", "r14", "r15",
+];
+
+struct InsInfo {
+    key: String,
+    bytes: Vec<u8>,
+    regs: Vec<&'static str>,
+    base: Option<&'static str>,
+    index: Option<(&'static str, u64)>,
+    disp: i64,
+    has_mem: bool,
+}
+
+/// A table key, or a synthesized `mov rax, [base + index*scale + disp]` in SIB form:
+/// `sib.<base|none>.<index|none>.<1|2|4|8>.<disp>` (any of the 16 GPRs as base, any but rsp as index).
+fn find_ins(key: &str) -> Option<InsInfo> {
+    if let Some(i) = INS.iter().find(|i| i.key == key) {
+        return Some(InsInfo {
+            key: key.to_string(),
+            bytes: i.bytes.to_vec(),
+            regs: i.regs.to_vec(),
+            base: i.base,
+            index: i.index,
+            disp: i.disp,
+            has_mem: i.has_mem,
+        });
+    }
+    let p: Vec<&str> = key.split('.').collect();
+    if p.len() != 5 || p[0] != "sib" {
+        return None;
+    }
+    let hw = |n: &str| AMD64_HW.iter().position(|r| *r == n);
+    let base = if p[1] == "none" { None } else { Some(hw(p[1])?) };
+    let index = if p[2] == "none" { None } else { Some(hw(p[2])?) };
+    if index == Some(4) {
+        return None; // rsp cannot be an index
+    }
+    let scale: u64 = p[3].parse().ok()?;
+    let sbits = match scale {
+        1 => 0u8,
+        2 => 1,
+        4 => 2,
+        8 => 3,
+        _ => return None,
+    };
+    let disp: i32 = p[4].parse().ok()?;
+    if base.is_none() && index.is_none() {
+        return None;
+    }
+    let x = index.map(|i| (i >> 3) as u8).unwrap_or(0);
+    let b = base.map(|i| (i >> 3) as u8).unwrap_or(0);
+    let rex = 0x48 | (x << 1) | b;
+    let idx3 = index.map(|i| (i & 7) as u8).unwrap_or(4);
+    let (md, base3, dbytes): (u8, u8, Vec<u8>) = match base {
+        None => (0, 5, disp.to_le_bytes().to_vec()),
+        Some(bi) => {
+            let b3 = (bi & 7) as u8;
+            if disp == 0 && b3 != 5 {
+                (0, b3, vec![])
+            } else if (-128..=127).contains(&disp) {
+                (1, b3, vec![disp as i8 as u8])
+            } else {
+                (2, b3, disp.to_le_bytes().to_vec())
+            }
+        }
+    };
+    let mut bytes = vec![rex, 0x8b, (md << 6) | 4, (sbits << 6) | (idx3 << 3) | base3];
+    bytes.extend(dbytes);
+    let mut regs = vec![];
+    if let Some(bi) = base {
+        regs.push(AMD64_HW[bi]);
+    }
+    if let Some(ii) = index {
+        regs.push(AMD64_HW[ii]);
+    }
+    Some(InsInfo {
+        key: key.to_string(),
+        bytes,
+        regs,
+        base: base.map(|i| AMD64_HW[i]),
+        index: index.map(|i| (AMD64_HW[i], scale)),
+        disp: disp as i64,
+        has_mem: true,
+    })
+}
+
 // ------------------------------------------------------------------------------------------- case
 
 #[derive(Clone, Debug)]
@@ -222,7 +310,7 @@ fn parse_case(line: &str) -> Option<Case> {
         Some(v)
     };
     let ins = f[6].strip_prefix("ins:")?.to_string();
-    if ins != "none" && !INS.iter().any(|i| i.key == ins) {
+    if ins != "none" && find_ins(&ins).is_none() {
         return None;
     }
     let m = f[7].strip_prefix("map:")?;
@@ -396,9 +484,9 @@ fn build_dump(c: &Case) -> Vec<u8> {
     }
     dump = dump.add_thread(thread).add_exception(ex).add_system_info(system_info);
     if c.ins != "none" {
-        let ins = INS.iter().find(|i| i.key == c.ins).expect("table key");
+        let ins = find_ins(&c.ins).expect("table key");
         let ip = reg_of(&regs, ip_name(&c.cpu));
-        let mem = synth::Memory::with_section(Section::with_endian(Endian::Little).append_bytes(ins.bytes), ip);
+        let mem = synth::Memory::with_section(Section::with_endian(Endian::Little).append_bytes(&ins.bytes), ip);
         dump = dump.add_memory(mem);
     }
     dump = dump.add_memory(stack);
@@ -570,7 +658,8 @@ fn run_case(c: &Case, res: &mut ImplResult) -> Observed {
     let gated_platform = !is64 || cpu == system_info::Cpu::Arm64;
     let op = op_of(&info.reason);
     let regs: Option<Vec<(String, u64)>> = c.regs.clone();
-    let ins = INS.iter().find(|i| i.key == c.ins);
+    let ins = find_ins(&c.ins);
+    let ins = ins.as_ref();
     let analysed = info.instruction_str.is_some();
 
     // ---- sanity of the harness' own assumptions (a failure here is a harness bug, not a finding)
@@ -958,7 +1047,25 @@ fn gen_case(rng: &mut Rng, big: bool) -> Case {
     let regions = gen_regions(rng, &kind, n);
     let addr = gen_addr(rng, &kind, &regions);
     let exc = gen_exc(rng, &os, addr);
-    let ins = if rng.chance(1, 8) { "none".to_string() } else { rng.pick(INS).key.to_string() };
+    let ins = if rng.chance(1, 8) {
+        "none".to_string()
+    } else if rng.chance(1, 2) {
+        rng.pick(INS).key.to_string()
+    } else {
+        let base = if rng.chance(1, 8) { "none" } else { *rng.pick(&AMD64_HW) };
+        let mut index = if rng.chance(1, 3) { "none" } else { *rng.pick(&AMD64_HW) };
+        if index == "rsp" || (base == "none" && index == "none") {
+            index = "rcx";
+        }
+        let disp: i64 = match rng.below(6) {
+            0 | 1 => 0,
+            2 => rng.below(256) as i64 - 128,
+            3 => 8 * rng.below(16) as i64,
+            4 => rng.below(1 << 31) as i64,
+            _ => -(rng.below(1 << 31) as i64) - 1,
+        };
+        format!("sib.{base}.{index}.{}.{disp}", rng.pick(&[1u64, 2, 4, 8]))
+    };
     let regs = if rng.chance(1, 8) {
         None
     } else {
@@ -990,8 +1097,8 @@ fn gen_case(rng: &mut Rng, big: bool) -> Case {
         }
         // make the instruction's base register interesting more often
         if cpu == "amd64" {
-            if let Some(i) = INS.iter().find(|i| i.key == ins) {
-                for r in i.regs {
+            if let Some(i) = find_ins(&ins) {
+                for r in &i.regs {
                     if AMD64_REGS.contains(r) && *r != "rip" && rng.chance(3, 4) {
                         v.retain(|(n, _)| n != r);
                         let val = match rng.below(8) {
@@ -1008,7 +1115,7 @@ fn gen_case(rng: &mut Rng, big: bool) -> Case {
             || (os == "linux" && exc.flags == 0x80)
             || (os == "mac" && exc.flags == 13);
         if cpu == "amd64" && gpf && rng.chance(3, 4) {
-            if let Some(i) = INS.iter().find(|i| i.key == ins) {
+            if let Some(i) = find_ins(&ins) {
                 if let Some(b) = i.base {
                     if b != "rip" {
                         let target = gen_addr(rng, &kind, &regions);
@@ -1032,10 +1139,10 @@ impl Engine for Bitflip {
         "bitflip"
     }
     fn rule(&self) -> String {
-        "case = synthesized minidump (cpu amd64/x86/arm64/ppc64/mips64/arm/ppc/unknown; os win/linux/mac; exception record incl. Windows AV read/write/exec, GPF shapes of the three OSes; exception context with all 17 amd64 / 39 ppc64 registers or none; memory at rip holding one of 20 encodings with base/index registers; memory-info list or Linux maps (or both, or none) with 0..64 regions of every protection/permission mix incl. NULL page, region ending at 2^64-1, empty, overflowing and overlapping regions), crash address chosen as a one-bit / two-bit neighbour of mapped memory, of NULL, inside a region, around the canonical boundary or random. Plus BitFlipDetails::confidence on all combinations of its inputs. non-trivial = at least one flip reported, or a 64-bit non-ARM64 dump with a non-empty map whose examined address is not mapped; distinct = distinct case line".into()
+        "case = synthesized minidump (cpu amd64/x86/arm64/ppc64/mips64/arm/ppc/unknown; os win/linux/mac; exception record incl. Windows AV read/write/exec, GPF shapes of the three OSes; exception context with all 17 amd64 / 39 ppc64 registers or none; memory at rip holding one of 20 fixed encodings or a synthesized `mov rax,[base+index*scale+disp]` over all 16x15 base/index registers, 4 scales, disp8/disp32; memory-info list or Linux maps (or both, or none) with 0..64 regions of every protection/permission mix incl. NULL page, region ending at 2^64-1, empty, overflowing and overlapping regions), crash address chosen as a one-bit / two-bit neighbour of mapped memory, of NULL, inside a region, around the canonical boundary or random. Plus BitFlipDetails::confidence on all combinations of its inputs. non-trivial = at least one flip reported, or a 64-bit non-ARM64 dump with a non-empty map whose examined address is not mapped; distinct = distinct case line".into()
     }
     fn exhaustive_part(&self) -> Option<String> {
-        Some("BitFlipDetails::confidence(): all 2^4 flag combinations x nearby_registers in {0,1,2,3,4,5,17,2^32-1} (128 records; the function only distinguishes min(nearby,4))".into())
+        Some("BitFlipDetails::confidence(): all 2^4 flag combinations x nearby_registers in {0,1,2,3,4,5,17,2^32-1} (128 records; the function only distinguishes min(nearby,4)). Systematic single-region product: 64 bit positions x {amd64 user, amd64 kernel-half, ppc64} x {read, write, exec, undetermined} x 8 permission mixes (6144 dumps)".into())
     }
 
     fn generate(&self, tier: Tier, rng: &mut Rng, emit: &mut dyn FnMut(String)) {
@@ -1049,6 +1156,26 @@ impl Engine for Bitflip {
                     near,
                     (bits >> 3) & 1
                 ));
+            }
+        }
+        // ---- systematic: every bit position x cpu x kind of access x permission mix, one region
+        for i in 0..64u32 {
+            for (cpu, target) in [("amd64", 0x0000_7f00_1234_5000u64), ("amd64", 0xffff_9000_0000_1000), ("ppc64", 0x0000_7f00_1234_5000)] {
+                for (code, nparams, info0) in [(0xc0000005u32, 2u32, 0u64), (0xc0000005, 2, 1), (0xc0000005, 2, 8), (0xc000001d, 0, 0)] {
+                    for perm in 0..8u32 {
+                        let examined = (target + 0x10) ^ (1u64 << i);
+                        let c = Case {
+                            cpu: cpu.to_string(),
+                            os: "win".to_string(),
+                            exc: Exc { code, flags: 0, nparams, info0, info1: examined, addr: examined },
+                            regs: None,
+                            ins: "none".to_string(),
+                            kind: MapKind::Maps,
+                            regions: vec![Region { lo: target, b: target + 0xfff, p: perm }],
+                        };
+                        emit(render(&c));
+                    }
+                }
             }
         }
         let n = if tier == Tier::Quick { 40000 } else { 600000 };
